@@ -537,6 +537,61 @@ func c08R2(c *Ctx, lx *lexerModel) {
 	if !okGuard {
 		return
 	}
+	// nothing that can refuse the script runs before the look-ahead: a blank or comment-only line must not be measured
+	// by a function that panics on what its whitespace looks like (the panic is turned into a load error)
+	{
+		var mayPanic func(g *Func, seen map[*Func]bool) bool
+		mayPanic = func(g *Func, seen map[*Func]bool) bool {
+			if g == nil || g.Body == nil || seen[g] {
+				return false
+			}
+			seen[g] = true
+			found := false
+			ast.Inspect(g.Body, func(q ast.Node) bool {
+				if cl, ok := q.(*ast.CallExpr); ok {
+					if id, ok := unparen(cl.Fun).(*ast.Ident); ok {
+						if _, isB := info.Uses[id].(*types.Builtin); isB && id.Name == "panic" {
+							found = true
+						}
+					}
+					if callee := calleeOf(info, cl); callee != nil {
+						if h := w.byObj[callee]; h != nil && h.Pkg == lx.pkg && mayPanic(h, seen) {
+							found = true
+						}
+					}
+				}
+				return true
+			})
+			return found
+		}
+		early := ""
+		var earlyPos token.Pos
+		for _, st := range f.Body.List {
+			if st.Pos() >= guards[0].Pos() {
+				break
+			}
+			ast.Inspect(st, func(q ast.Node) bool {
+				if cl, ok := q.(*ast.CallExpr); ok && early == "" {
+					if callee := calleeOf(info, cl); callee != nil {
+						if h := w.byObj[callee]; h != nil && h.Pkg == lx.pkg && mayPanic(h, map[*Func]bool{}) {
+							early, earlyPos = h.Name, cl.Pos()
+						}
+					}
+					if id, ok := unparen(cl.Fun).(*ast.Ident); ok {
+						if _, isB := info.Uses[id].(*types.Builtin); isB && id.Name == "panic" {
+							early, earlyPos = "panic", cl.Pos()
+						}
+					}
+				}
+				return true
+			})
+		}
+		if early != "" {
+			c.ob("C08.R2", f.Name+"/no-rejection-before-look-ahead", w.Pos(earlyPos), false, "the NEWLINE handler calls "+early+", which can panic (the script is then refused), before the look-ahead test: the whitespace of a blank or comment-only line could get a script refused, although such a line has no indentation of its own")
+		} else {
+			c.obN("C08.R2", f.Name+"/no-rejection-before-look-ahead", pos, true, "nothing that can refuse the script is called before the look-ahead test", false)
+		}
+	}
 	// coverage of the line-break characters and of the comment opener
 	var missing []string
 	for r := range breakChars {
